@@ -1,4 +1,5 @@
 import O4.Lemmas.Obfs4Ref
+import O4.Generated.Facts.Ntor
 /-!
 # C06 — the obfs4 wire format (handshake lengths, key schedule split, frame / nonce / packet
 layout, the unpadded seed frame), over the constants regenerated from the Go tree
@@ -184,6 +185,21 @@ theorem key_block_layout (key : Bytes) (hk : key.length = KeyLength) :
   · simp [drbgSeed, keyLength, noncePrefixLength, Consts.Drbg.seedLength, hk]
 
 example : (List.replicate 72 (5 : UInt8)).length = KeyLength := by decide
+
+/-- **structural facts about the ntor key schedule, regenerated from the Go source on every run
+    (go/ast call sets of `common/ntor`)**: `ntorCommon` keys its three HMACs (`t_key`, `t_verify`,
+    `t_mac`) itself, with `hmac.New`, on every call — no keyed `hash.Hash` is shared between
+    handshakes, so concurrent handshakes compute what sequential ones do (the model's `ntorCommon` is
+    a pure function) — and both `ClientHandshake` and `ServerHandshake` go through it with
+    `curve25519.ScalarMult`; `Kdf` reads the 144-byte OKM from `hkdf.New`. -/
+theorem key_schedule_structure :
+    "hmac.New" ∈ O4.Facts.Ntor.func_ntorCommon_calls ∧
+    "ntorCommon" ∈ O4.Facts.Ntor.func_ClientHandshake_calls ∧
+    "ntorCommon" ∈ O4.Facts.Ntor.func_ServerHandshake_calls ∧
+    "curve25519.ScalarMult" ∈ O4.Facts.Ntor.func_ClientHandshake_calls ∧
+    "curve25519.ScalarMult" ∈ O4.Facts.Ntor.func_ServerHandshake_calls ∧
+    "hkdf.New" ∈ O4.Facts.Ntor.func_Kdf_calls := by
+  decide
 
 /-! ## the epoch hour -/
 
